@@ -64,7 +64,7 @@ def plan(tier):
 
 
 def enumerate_cases(tier, seed):
-    follow = ["none", "reassign", "rebase", "rename", "saveload", "chain_override", "two_bases"]
+    follow = ["none", "reassign", "rebase", "rename", "saveload", "chain_override", "two_bases", "diamond"]
     n = 0
     for w, d, t, m, dv, order in itertools.product(WORLDS, DEFINERS, TARGETS, MODES, DERIVERS,
                                                     ("ref_first", "deriver_first")):
@@ -372,6 +372,31 @@ def run_case(case):
             S.remove_bases(B1)
             exp2 = None if exp is None else tuple("S" if p == "X" else p for p in exp)
             f = check_binding(m, case, ("S",), exp2, mode, "in S after its first base B1 was removed")
+            if f:
+                return out.fail(f[0], f[1])
+        elif fol == "diamond" and case["deriver"] in ("static_bases", "static_add") and xp == ("X",):
+            # D <- Bq, D <- Cq (overrides r, absolute, outside target), Sq(Bq, Cq): Sq.r comes from Cq (linearisation
+            # Sq, Bq, Cq, D).  Re-assigning D.r must not reach Sq.r; re-assigning Cq.r must.
+            Bq = m.new_space("Bq", bases=[D])
+            Cq = m.new_space("Cq", bases=[D])
+            Cq.set_ref("r", m.O.oc, "absolute")
+            Sq = m.new_space("Sq", bases=[Bq, Cq])
+            if Sq.r is not m.O.oc:
+                return out.fail("binding", "%s: Sq(Bq, Cq).r should come from the override in Cq, got %r" % (fmt(case), Sq.r))
+            D.set_ref("r", m.O, "auto")
+            if Sq.r is not m.O.oc:
+                return out.fail("binding", "%s: after re-assigning D.r, Sq(Bq, Cq).r = %r although it derives from the "
+                                           "override in Cq" % (fmt(case), Sq.r))
+            if Sq._get_object("r", as_proxy=True).refmode != "absolute":
+                return out.fail("refmode", "%s: after re-assigning D.r the mode of Sq.r is %r" % (
+                    fmt(case), Sq._get_object("r", as_proxy=True).refmode))
+            if Bq.r is not m.O:
+                return out.fail("binding", "%s: after re-assigning D.r, Bq.r = %r" % (fmt(case), Bq.r))
+            Cq.set_ref("r", m.O, "absolute")
+            if Sq.r is not m.O:
+                return out.fail("binding", "%s: after re-assigning Cq.r, Sq.r = %r" % (fmt(case), Sq.r))
+            D.set_ref("r", T, mode)
+            f = check_binding(m, case, holder, exp, mode, "after the diamond re-assignments")
             if f:
                 return out.fail(f[0], f[1])
         elif fol == "saveload":
